@@ -12,7 +12,7 @@ use serde::{Deserialize, Serialize};
 use std::collections::BTreeMap;
 
 #[derive(Clone, Debug, Serialize, Deserialize)]
-enum Op {
+pub enum Op {
     SetMemory { addr: u64, data: Vec<u8>, perms: u32 },
     Set32 { addr: u64, value: u32 },
     Get { addr: u64, bits: usize },
@@ -22,7 +22,7 @@ enum Op {
 }
 
 #[derive(Clone, Debug, Serialize, Deserialize)]
-struct Case {
+pub struct Case {
     big_endian: bool,
     base: u64,
     ops: Vec<Op>,
@@ -31,7 +31,7 @@ struct Case {
 const WINDOW: u64 = 256;
 const BASES: [u64; 4] = [0x1000, 0, 0xffff_ff80, 0x7fff_ffff_ffff_ff80];
 
-fn decode(t: &mut Tape) -> Case {
+pub fn decode(t: &mut Tape) -> Case {
     let big_endian = t.chance(1, 2);
     let base = BASES[t.below(BASES.len())];
     let n = t.range(1, 40);
@@ -118,7 +118,7 @@ fn model_get(m: &M, addr: u64, n: u64) -> Option<Vec<u8>> {
     Some(v)
 }
 
-fn check(case: &Case, obs: &mut Obs) -> Result<(), Failure> {
+pub fn check(case: &Case, obs: &mut Obs) -> Result<(), Failure> {
     let endian = if case.big_endian { Endian::Big } else { Endian::Little };
     let mut mem = Memory::new(endian);
     let mut m = M { bytes: BTreeMap::new(), writer: BTreeMap::new() };
@@ -360,7 +360,7 @@ fn check_get(mem: &Memory, m: &M, addr: u64, bits: usize, big: bool, step: usize
     }
 }
 
-fn render(c: &Case) -> String {
+pub fn render(c: &Case) -> String {
     let mut s = format!("{} endian, base 0x{:x}:", if c.big_endian { "big" } else { "little" }, c.base);
     for op in &c.ops {
         s.push_str(&match op {
@@ -375,6 +375,19 @@ fn render(c: &Case) -> String {
     s
 }
 
+/// libFuzzer entry: the input bytes are the entropy tape (little-endian u32 words).
+pub fn fuzz_bytes(data: &[u8]) {
+    let mut tape: Vec<u32> = data.chunks(4).map(|c| {
+        let mut b = [0u8; 4];
+        b[..c.len()].copy_from_slice(c);
+        u32::from_le_bytes(b)
+    }).collect();
+    tape.truncate(400);
+    let case = decode(&mut Tape::new(&tape));
+    engine::fuzz_one("C16", &case, &render, &check);
+}
+
+#[allow(dead_code)]
 fn main() -> std::process::ExitCode {
     let mut spec = Spec::new(
         "C16",
